@@ -479,6 +479,24 @@ impl Property for C12 {
                     table.insert(filed_under, doc);
                 }
                 let _ = honest;
+                // one key obtained twice (derived from the private key, and read from its JSON form) is one key: a
+                // signature by it is counted once, however often the key is handed over
+                {
+                    let sk = private(&keys[0]);
+                    let again: Option<PublicKey> = serde_json::from_value(key_wire(&keys[0]).1).ok();
+                    let link = in_toto::models::LinkMetadataBuilder::new().name("n".into()).build();
+                    if let (Some(again), Ok(link)) = (again, link) {
+                        if let Ok(block) = in_toto::models::Metablock::new(in_toto::models::MetadataWrapper::Link(link), &[&*sk]) {
+                            let pk = sk.public().clone();
+                            if block.verify(1, [&pk, &again]).is_err() {
+                                o.fail("C12/same-key-twice/not-counted", "verify(1, [k, k from JSON]) = Err for a block signed by k", "Ok");
+                            }
+                            if block.verify(2, [&pk, &again]).is_ok() {
+                                o.fail("C12/same-key-twice/counted-per-occurrence", format!("verify(2, [k, k from JSON]) = Ok for a block signed once by k = {:?}", keys[0]), "Err: one key, one signature");
+                            }
+                        }
+                    }
+                }
                 let d = json!({"_type": "layout", "expires": "2100-01-01T00:00:00Z", "readme": "", "keys": table, "steps": [], "inspect": []});
                 match serde_json::from_value::<LayoutMetadata>(d.clone()) {
                     Err(_) => o.class("table-rejected"),
